@@ -48,7 +48,7 @@ from sa.core import rule, AnalysisError
 from sa.pyindex import get_module, dotted, src, walk_no_nested
 from sa import flow
 from rules import c20 as base
-from rules.provenance import bind_args
+from rules._util_c20 import (_N, _Source, _Interp, _unmodelled, _name, _dotted)
 
 MP = base.MP
 PR = "pytype/pytd/printer.py"
@@ -252,534 +252,7 @@ def _printer_keeps_unit_local_dotted_names(ctx):
       "unit is not understood")
 
 
-# -- model values -------------------------------------------------------------------
-
-class _N:
-  """A libcst-shaped model node."""
-  __slots__ = ("cls", "fields")
-
-  def __init__(self, cls, **fields):
-    self.cls = cls
-    self.fields = fields
-
-  def __repr__(self):
-    return f"<{self.cls}>"
-
-
-class _Opaque:
-  """A value the model knows nothing about."""
-  __slots__ = ("what",)
-
-  def __init__(self, what):
-    self.what = what
-
-  def __repr__(self):
-    return f"<?{self.what}>"
-
-
-class _Obj:
-  """An instance of a class of merge_pyi.py."""
-  __slots__ = ("cname", "attrs")
-
-  def __init__(self, cname):
-    self.cname = cname
-    self.attrs = {}
-
-
-class _Source:
-  """The text of a module, standing for the tree it parses to."""
-  __slots__ = ("tree",)
-
-  def __init__(self, tree):
-    self.tree = tree
-
-
-class _Remove:
-  def __repr__(self):
-    return "RemovalSentinel.REMOVE"
-
-
-_REMOVE = _Remove()
-
-
-class _Ret(Exception):
-  def __init__(self, value):
-    super().__init__()
-    self.value = value
-
-
-def _unmodelled(what):
-  return AnalysisError(f"model execution of merge_sources: {what}")
-
-
-class _Interp:
-  """Interprets functions of merge_pyi.py on model values."""
-
-  def __init__(self, ctx):
-    self.m = base._model(ctx)
-    self.mod = self.m.mod
-    self.model = base._cst(ctx)
-    self.typer = base.Typer(self.model, self.mod, {})
-    self.captured = None
-    self.steps = 0
-    self.trace = []
-
-  # -- calls ------------------------------------------------------------------------
-  def call(self, fn, self_obj, args, kwargs=None):
-    kwargs = dict(kwargs or {})
-    a = fn.args
-    if a.vararg or a.kwarg or a.posonlyargs:
-      raise _unmodelled(f"{fn.name} has */** or positional-only parameters")
-    params = [p.arg for p in a.args]
-    env = {}
-    if self_obj is not None:
-      if not params:
-        raise _unmodelled(f"method {fn.name} without self")
-      env[params[0]] = self_obj
-      params = params[1:]
-    if len(args) > len(params):
-      raise _unmodelled(f"too many arguments for {fn.name}")
-    for p, v in zip(params, args):
-      env[p] = v
-    defaults = dict(zip([p.arg for p in a.args][len(a.args) - len(a.defaults):], a.defaults))
-    for p, d in zip(a.kwonlyargs, a.kw_defaults):
-      params.append(p.arg)
-      if d is not None:
-        defaults[p.arg] = d
-    for k, v in kwargs.items():
-      if k not in params or k in env:
-        raise _unmodelled(f"{fn.name} has no free parameter {k}")
-      env[k] = v
-    for p in params:
-      if p not in env:
-        if p not in defaults:
-          raise _unmodelled(f"{fn.name}: parameter {p} not given")
-        env[p] = self.eval(defaults[p], {})
-    try:
-      self.block(fn.body, env)
-    except _Ret as r:
-      return r.value
-    return None
-
-  def new(self, cname, args, kwargs):
-    obj = _Obj(cname)
-    init = base._methods(self.mod, cname).get("__init__")
-    if init is not None:
-      self.call(init, obj, args, kwargs)
-    elif args or kwargs:
-      raise _unmodelled(f"{cname}(..) given arguments without __init__")
-    return obj
-
-  # -- libcst's traversal protocol --------------------------------------------------
-  def visit_tree(self, tree, obj):
-    kind = self.m.kinds.get(obj.cname)
-    if kind is None:
-      raise _unmodelled(f"{obj.cname} is not a visitor/transformer class")
-    methods = base._methods(self.mod, obj.cname)
-    for hook in ("on_visit", "on_leave", "on_visit_attribute", "on_leave_attribute"):
-      if hook in methods:
-        raise _unmodelled(f"{obj.cname} overrides {hook}")
-    self.trace.append(f"{tree.cls}.visit({obj.cname})")
-    out = self._visit(tree, obj, methods, kind)
-    if out is _REMOVE:
-      raise _unmodelled("the whole tree was removed")
-    return out
-
-  def _visit(self, node, obj, methods, kind):
-    vm = methods.get("visit_" + node.cls)
-    descend = True
-    if vm is not None:
-      r = self.call(vm, obj, [node])
-      if isinstance(r, _Opaque):
-        raise _unmodelled(f"{obj.cname}.{vm.name} returns an unknown value")
-      descend = r is None or bool(r)
-    updated = node
-    if descend:
-      fields = {}
-      for f, v in node.fields.items():
-        if isinstance(v, _N):
-          nv = self._visit(v, obj, methods, kind)
-          if nv is _REMOVE:
-            ft = self.model.field_type(node.cls, f)
-            if ft is None or "None" not in ft:
-              raise _unmodelled(f"required child {node.cls}.{f} removed")
-            nv = None
-          fields[f] = nv
-        elif isinstance(v, (list, tuple)):
-          out = []
-          for c in v:
-            if not isinstance(c, _N):
-              out.append(c)
-              continue
-            nc = self._visit(c, obj, methods, kind)
-            if nc is _REMOVE:
-              continue
-            # libcst drops a statement line whose last small statement went away
-            if isinstance(nc, _N) and c.fields.get("body") and \
-                isinstance(nc.fields.get("body"), (list, tuple)) and not nc.fields["body"]:
-              continue
-            out.append(nc)
-          fields[f] = out
-        else:
-          fields[f] = v
-      if kind == "transformer":
-        updated = _N(node.cls, **fields)
-    lm = methods.get("leave_" + node.cls)
-    if kind == "visitor":
-      if lm is not None:
-        self.call(lm, obj, [node])
-      return node          # libcst: leave_result = self
-    if lm is None:
-      return updated
-    r = self.call(lm, obj, [node, updated])
-    if not (isinstance(r, _N) or r is _REMOVE):
-      raise _unmodelled(f"{obj.cname}.{lm.name} returns {r!r}")
-    return r
-
-  # -- statements -------------------------------------------------------------------
-  def block(self, stmts, env):
-    for s in stmts:
-      self.stmt(s, env)
-
-  def tick(self):
-    self.steps += 1
-    if self.steps > 200000:
-      raise _unmodelled("step budget exhausted")
-
-  def stmt(self, s, env):
-    self.tick()
-    if isinstance(s, ast.Return):
-      raise _Ret(self.eval(s.value, env) if s.value is not None else None)
-    if isinstance(s, ast.Expr):
-      self.eval(s.value, env)
-    elif isinstance(s, ast.Pass):
-      pass
-    elif isinstance(s, (ast.Assign, ast.AnnAssign)):
-      if isinstance(s, ast.AnnAssign) and s.value is None:
-        return
-      v = self.eval(s.value, env)
-      for t in (s.targets if isinstance(s, ast.Assign) else [s.target]):
-        self.assign(t, v, env)
-    elif isinstance(s, ast.AugAssign):
-      cur = self.eval(s.target, env)
-      v = self.eval(s.value, env)
-      if isinstance(cur, int) and isinstance(v, int) and isinstance(s.op, (ast.Add, ast.Sub)):
-        self.assign(s.target, cur + v if isinstance(s.op, ast.Add) else cur - v, env)
-      elif isinstance(cur, list) and isinstance(v, (list, tuple)) and isinstance(s.op, ast.Add):
-        cur.extend(v)
-      else:
-        raise _unmodelled(f"`{src(s)[:50]}`")
-    elif isinstance(s, ast.If):
-      self.block(s.body if self.truth(self.eval(s.test, env), s.test) else s.orelse, env)
-    elif isinstance(s, ast.While):
-      n = 0
-      while self.truth(self.eval(s.test, env), s.test):
-        n += 1
-        if n > 500:
-          raise _unmodelled("loop does not end on the witness")
-        self.block(s.body, env)
-      self.block(s.orelse, env)
-    elif isinstance(s, ast.For):
-      it = self.eval(s.iter, env)
-      if not isinstance(it, (list, tuple, set, frozenset)):
-        raise _unmodelled(f"iteration over {it!r}")
-      for x in list(it):
-        self.assign(s.target, x, env)
-        self.block(s.body, env)
-      self.block(s.orelse, env)
-    elif isinstance(s, ast.Try):
-      # a model run raises nothing: handlers are the paths of real failures
-      self.block(s.body, env)
-      self.block(s.orelse, env)
-      self.block(s.finalbody, env)
-    else:
-      raise _unmodelled(f"statement `{src(s)[:50]}`")
-
-  def assign(self, t, v, env):
-    if isinstance(t, ast.Name):
-      env[t.id] = v
-    elif isinstance(t, ast.Attribute):
-      o = self.eval(t.value, env)
-      if not isinstance(o, _Obj):
-        raise _unmodelled(f"assignment to `{src(t)}`")
-      o.attrs[t.attr] = v
-    elif isinstance(t, (ast.Tuple, ast.List)) and isinstance(v, (list, tuple)) \
-        and len(v) == len(t.elts) and not any(isinstance(e, ast.Starred) for e in t.elts):
-      for e, x in zip(t.elts, v):
-        self.assign(e, x, env)
-    else:
-      raise _unmodelled(f"assignment to `{src(t)}`")
-
-  # -- expressions ------------------------------------------------------------------
-  def truth(self, v, where):
-    if isinstance(v, _Opaque):
-      raise _unmodelled(f"the test `{src(where)[:60]}` depends on {v!r}")
-    if isinstance(v, (_N, _Obj, _Source)):
-      return True
-    return bool(v)
-
-  def _libcst_name(self, d):
-    """`cst.a.b` -> 'a.b' when the head is an import of libcst."""
-    if not d or "." not in d:
-      return None
-    head, rest = d.split(".", 1)
-    if self.mod.imports.get(head, "").split(".")[0] == "libcst":
-      return rest
-    return None
-
-  def eval(self, e, env):
-    self.tick()
-    if isinstance(e, ast.Constant):
-      return e.value
-    if isinstance(e, ast.Name):
-      if e.id in env:
-        return env[e.id]
-      if e.id in ("True", "False", "None"):
-        return {"True": True, "False": False, "None": None}[e.id]
-      return _Opaque(e.id)
-    if isinstance(e, ast.JoinedStr):
-      return _Opaque("str")
-    if isinstance(e, (ast.List, ast.Tuple)):
-      if any(isinstance(x, ast.Starred) for x in e.elts):
-        raise _unmodelled(f"`{src(e)[:50]}`")
-      vals = [self.eval(x, env) for x in e.elts]
-      return vals if isinstance(e, ast.List) else tuple(vals)
-    if isinstance(e, ast.Attribute):
-      lib = self._libcst_name(dotted(e))
-      if lib is not None and not (isinstance(e.value, ast.Name) and e.value.id in env):
-        if lib.endswith("RemovalSentinel.REMOVE"):
-          return _REMOVE
-        return _Opaque(lib)
-      o = self.eval(e.value, env)
-      if isinstance(o, _N):
-        if e.attr in o.fields:
-          return o.fields[e.attr]
-        if self.model.field_type(o.cls, e.attr) is None:
-          raise _unmodelled(f"{o.cls} has no field {e.attr}")
-        return _Opaque(f"{o.cls}.{e.attr}")
-      if isinstance(o, _Obj):
-        if e.attr in o.attrs:
-          return o.attrs[e.attr]
-        raise _unmodelled(f"{o.cname} instance has no attribute {e.attr} yet")
-      if isinstance(o, _Opaque):
-        return _Opaque(f"{o.what}.{e.attr}")
-      raise _unmodelled(f"attribute `{src(e)[:50]}` of {o!r}")
-    if isinstance(e, ast.BoolOp):
-      v = None
-      for x in e.values:
-        v = self.eval(x, env)
-        t = self.truth(v, x)
-        if isinstance(e.op, ast.And) and not t:
-          return v
-        if isinstance(e.op, ast.Or) and t:
-          return v
-      return v
-    if isinstance(e, ast.UnaryOp) and isinstance(e.op, ast.Not):
-      return not self.truth(self.eval(e.operand, env), e.operand)
-    if isinstance(e, ast.IfExp):
-      return self.eval(e.body if self.truth(self.eval(e.test, env), e.test) else e.orelse, env)
-    if isinstance(e, ast.Compare):
-      left = self.eval(e.left, env)
-      for op, r in zip(e.ops, e.comparators):
-        right = self.eval(r, env)
-        res = self.compare(op, left, right, e)
-        if isinstance(res, _Opaque) or not res:
-          return res
-        left = right
-      return True
-    if isinstance(e, ast.ListComp):
-      return self.comp(e, env)
-    if isinstance(e, ast.BinOp) and isinstance(e.op, (ast.Add, ast.Sub)):
-      a, b = self.eval(e.left, env), self.eval(e.right, env)
-      if isinstance(a, _Opaque) or isinstance(b, _Opaque):
-        return _Opaque(src(e)[:40])
-      if isinstance(a, int) and isinstance(b, int):
-        return a + b if isinstance(e.op, ast.Add) else a - b
-      if isinstance(e.op, ast.Add) and (
-          (isinstance(a, list) and isinstance(b, list))
-          or (isinstance(a, tuple) and isinstance(b, tuple))
-          or (isinstance(a, str) and isinstance(b, str))):
-        return a + b
-      raise _unmodelled(f"expression `{src(e)[:50]}`")
-    if isinstance(e, ast.Call):
-      return self.eval_call(e, env)
-    raise _unmodelled(f"expression `{src(e)[:50]}`")
-
-  def compare(self, op, a, b, where):
-    if isinstance(op, (ast.Is, ast.IsNot)):
-      if isinstance(a, _Opaque) or isinstance(b, _Opaque):
-        if a is None or b is None:
-          return _Opaque("is-None of unknown")
-        return _Opaque("identity of unknown")
-      return (a is b) == isinstance(op, ast.Is)
-    if isinstance(a, _Opaque) or isinstance(b, _Opaque):
-      return _Opaque(src(where)[:40])
-    if isinstance(op, (ast.In, ast.NotIn)):
-      if not isinstance(b, (set, frozenset, list, tuple, str, dict)):
-        raise _unmodelled(f"membership in {b!r}")
-      if isinstance(b, (set, frozenset, dict)) and isinstance(a, (_N, _Obj, list)):
-        raise _unmodelled(f"membership of {a!r}")
-      return (a in b) == isinstance(op, ast.In)
-    if isinstance(op, (ast.Eq, ast.NotEq)):
-      if isinstance(a, (_N, _Obj)) or isinstance(b, (_N, _Obj)):
-        raise _unmodelled("comparison of nodes")
-      return (a == b) == isinstance(op, ast.Eq)
-    raise _unmodelled(f"comparison `{src(where)[:50]}`")
-
-  def comp(self, e, env):
-    out = []
-
-    def rec(i, env):
-      if i == len(e.generators):
-        out.append(self.eval(e.elt, env))
-        return
-      g = e.generators[i]
-      it = self.eval(g.iter, env)
-      if not isinstance(it, (list, tuple, set, frozenset)):
-        raise _unmodelled(f"iteration over {it!r}")
-      for x in list(it):
-        env2 = dict(env)
-        self.assign(g.target, x, env2)
-        if all(self.truth(self.eval(c, env2), c) for c in g.ifs):
-          rec(i + 1, env2)
-    rec(0, env)
-    return out
-
-  def eval_call(self, e, env):
-    if any(isinstance(a, ast.Starred) for a in e.args) or any(k.arg is None for k in e.keywords):
-      raise _unmodelled(f"call `{src(e)[:50]}` with */**")
-    f = e.func
-    # super().__init__() of a libcst base class: nothing to model
-    if isinstance(f, ast.Attribute) and isinstance(f.value, ast.Call) and \
-        isinstance(f.value.func, ast.Name) and f.value.func.id == "super":
-      return None
-    args = [self.eval(a, env) for a in e.args]
-    kwargs = {k.arg: self.eval(k.value, env) for k in e.keywords}
-    if isinstance(f, ast.Name) and f.id not in env:
-      if f.id == "isinstance" and len(args) == 2:
-        return self.isinstance_(e, args[0])
-      if f.id in ("set", "list", "tuple", "frozenset") and not kwargs and len(args) <= 1:
-        make = {"set": set, "list": list, "tuple": tuple, "frozenset": frozenset}[f.id]
-        if not args:
-          return make()
-        if isinstance(args[0], (list, tuple, set, frozenset)) and not any(
-            isinstance(x, (_Opaque, list)) for x in args[0]):
-          return make(args[0])
-        raise _unmodelled(f"`{src(e)[:50]}`")
-      if f.id == "len" and len(args) == 1 and isinstance(args[0], (list, tuple, set, frozenset, str)):
-        return len(args[0])
-      if f.id == "bool" and len(args) == 1:
-        return self.truth(args[0], e)
-      if f.id in ("getattr", "hasattr") and len(args) in (2, 3) and not kwargs \
-          and isinstance(args[0], _Obj) and isinstance(args[1], str):
-        if f.id == "hasattr":
-          return args[1] in args[0].attrs
-        if args[1] in args[0].attrs:
-          return args[0].attrs[args[1]]
-        if len(args) == 3:
-          return args[2]
-        raise _unmodelled(f"`{src(e)[:50]}`: attribute not set")
-      if f.id in self.m.classes:
-        return self.new(f.id, args, kwargs)
-      if f.id == self.m.mc.name and f.id in self.mod.functions:
-        bound = bind_args(e, self.m.mc)
-        self.captured = {p: self.eval(v, env) for p, v in bound.items()}
-        return _Opaque("merged tree")
-      if f.id in self.mod.functions:
-        return self.call(self.mod.functions[f.id], None, args, kwargs)
-      return _Opaque(f"{f.id}(..)")
-    if isinstance(f, ast.Attribute):
-      lib = self._libcst_name(dotted(f))
-      if lib is not None and not (isinstance(f.value, ast.Name) and f.value.id in env):
-        if lib == "parse_module" and len(args) == 1 and not kwargs:
-          if isinstance(args[0], _Source):
-            return args[0].tree
-          raise _unmodelled(f"parse_module of {args[0]!r}")
-        if lib.endswith("RemoveFromParent") and not args:
-          return _REMOVE
-        built = self.typer.node_class(f)
-        if built is not None:
-          order = self.model.init_order(built) if args else []
-          if len(args) > len(order):
-            raise _unmodelled(f"too many positional arguments for {built}")
-          fields = dict(zip(order, args))
-          for k, v in kwargs.items():
-            if k in fields or self.model.field_type(built, k) is None:
-              raise _unmodelled(f"{built}({k}=..)")
-            fields[k] = v
-          return _N(built, **fields)
-        return _Opaque(f"{lib}(..)")
-      o = self.eval(f.value, env)
-      if isinstance(o, _Obj):
-        meth = base._methods(self.mod, o.cname).get(f.attr)
-        if meth is None:
-          raise _unmodelled(f"{o.cname} has no method {f.attr}")
-        return self.call(meth, o, args, kwargs)
-      if isinstance(o, _N):
-        if f.attr == "with_changes" and not args:
-          for k in kwargs:
-            if self.model.field_type(o.cls, k) is None:
-              raise _unmodelled(f"{o.cls}.with_changes({k}=..)")
-          return _N(o.cls, **{**o.fields, **kwargs})
-        if f.attr == "visit" and len(args) == 1 and not kwargs:
-          if isinstance(args[0], _Obj):
-            return self.visit_tree(o, args[0])
-          raise _unmodelled(f"`{src(e)[:60]}`: visitor {args[0]!r} is not modelled")
-        if f.attr in ("deep_replace", "deep_remove", "with_deep_changes"):
-          raise _unmodelled(f"`{src(e)[:60]}`")
-        return _Opaque(f"{o.cls}.{f.attr}(..)")
-      if isinstance(o, (set, list)) and not kwargs:
-        if isinstance(o, set) and f.attr in ("add", "discard") and len(args) == 1:
-          if isinstance(args[0], (_Opaque, _N, _Obj, list)):
-            raise _unmodelled(f"`{src(e)[:50]}` with {args[0]!r}")
-          getattr(o, f.attr)(args[0])
-          return None
-        if isinstance(o, set) and f.attr == "update" and len(args) == 1 and \
-            isinstance(args[0], (set, frozenset, list, tuple)):
-          o.update(args[0])
-          return None
-        if isinstance(o, list) and f.attr == "append" and len(args) == 1:
-          o.append(args[0])
-          return None
-        if isinstance(o, list) and f.attr == "extend" and len(args) == 1 and \
-            isinstance(args[0], (list, tuple)):
-          o.extend(args[0])
-          return None
-        raise _unmodelled(f"`{src(e)[:50]}`")
-      if isinstance(o, _Opaque):
-        return _Opaque(f"{o.what}.{f.attr}(..)")
-      if isinstance(o, str) and f.attr in ("startswith", "endswith") and len(args) == 1 \
-          and isinstance(args[0], (str, tuple)):
-        return getattr(o, f.attr)(args[0])
-      raise _unmodelled(f"call `{src(e)[:50]}` on {o!r}")
-    raise _unmodelled(f"call `{src(e)[:50]}`")
-
-  def isinstance_(self, e, subject):
-    targets = e.args[1].elts if isinstance(e.args[1], ast.Tuple) else [e.args[1]]
-    classes = [self.typer.node_class(t) for t in targets]
-    if not all(classes):
-      if isinstance(subject, _N):
-        raise _unmodelled(f"`{src(e)[:50]}`")
-      return _Opaque(src(e)[:40])
-    if isinstance(subject, _Opaque):
-      return _Opaque(src(e)[:40])
-    if not isinstance(subject, _N):
-      return False
-    return any(subject.cls in self.model.cone(c) for c in classes)
-
-
 # -- witness trees --------------------------------------------------------------------
-
-def _name(v):
-  return _N("Name", value=v)
-
-
-def _dotted(*parts):
-  node = _name(parts[0])
-  for p in parts[1:]:
-    node = _N("Attribute", value=node, attr=_name(p))
-  return node
-
 
 def _sub(value, *elems):
   return _N("Subscript", value=value,
@@ -931,7 +404,7 @@ def _run(ctx):
     source, stub = _witness()
     ms = it.m.ms
     try:
-      it.call(ms, None, [], {"py": _Source(source), "pyi": _Source(stub)})
+      it.call(ms, None, [], {"py": _Source(source, "py"), "pyi": _Source(stub, "pyi")})
     except RecursionError as e:
       raise _unmodelled("recursion too deep") from e
     if it.captured is None:
